@@ -1,4 +1,22 @@
+/-
+  Line-protocol handler for C02 (stateful: a case starts with `c02 reset …`).
+
+    c02 reset …                                  -> ok
+    c02 part <name> <isXml> <bytes>              -> ok | malformed | not-utf8       (independent XML reader)
+    c02 decode                                   -> errs=<n>;<first violations>;view=<decoded view>
+    c02 bridge cells=<facts> sst=<facts> model=<cells|~>
+                                                 -> ok | differs <what>   ## counts
+      ties the cell bridge of `Umya/Model/CellNode.lean` (theorems `C02_cell_decodes`, `C02_book_cells_decode`)
+      to the package just sent: the facts are what a scanner that does not unescape read from the REAL parts
+      (`harness/src/c01.rs::package_facts`); `model` is the in-memory workbook as cells of the writer model.
+      Checked: (a) every `<c>` the independent XML reader parsed from the real sheet parts IS `cellNode` of
+      its fact (tree equality); (b) the shared strings the independent reader takes from the real part are
+      those of the rendered `<si>` facts; (c) the model writer run on `model` produces exactly these cell
+      facts and `<si>` texts; (d) `decodeCell` on the real `<c>` trees gives `fileView` of the model cells.
+-/
 import Umya.Driver.Proto
+import Umya.Driver.C01
+import Umya.Model.CellNode
 import Umya.Spec.Sml
 namespace Umya.Driver.C02
 open Umya.Spec.Xml Umya.Spec.Sml Umya.Proto
@@ -10,7 +28,7 @@ def hexOf (t : Text) : String := encodeStr t
 
 def cellStr (c : CellV) : String :=
   -- a formula cell whose cached string result is empty is the same as one without a cached result
-  let kind := if c.formula.isSome ∧ c.kind = "s" ∧ c.value.isEmpty then "" else c.kind
+  let kind := Umya.CellNode.normKind c.formula c.kind c.value
   -- a shared-formula child is written as a reference to its master: reported as such (marker), the
   -- expansion rule is checked by C03
   let f := if c.sharedChild then some (Char.ofNat 1 :: "shared".toList) else c.formula
@@ -38,6 +56,145 @@ def stripBom (cs : List Char) : List Char :=
   | c :: r => if c.toNat = 0xFEFF then r else cs
   | [] => []
 
+/-! ### the cell bridge (`c02 bridge`) -/
+
+section Bridge
+open Umya.CellXml Umya.CellNode
+
+abbrev CellT := Umya.Driver.C01.CellT
+
+def sheetPartName (k : Nat) : String := s!"xl/worksheets/sheet{k + 1}.xml"
+
+/-- the `<c>` elements of a parsed worksheet part, in document order -/
+def cellNodesOf (root : Node) : List Node :=
+  (((root.kid? "sheetData").map (·.kids "row")).getD []).flatMap (·.kids "c")
+
+/-- is this `<c>` inside the fragment `CellX` describes: attributes `r`, `t`, `s` only; children `<f>` without
+    attributes and `<v>` only (shared / array formulas, `cm`/`vm`/`ph`, `<is>`, `<extLst>` are outside) -/
+def inFragment (c : Node) : Bool :=
+  c.attrs.all (fun a => a.name = ['r'] || a.name = ['t'] || a.name = ['s']) &&
+  c.children.all (fun k => match k with
+    | .elem n as _ => (n = ['f'] && as.isEmpty) || (n = ['v'] && as.isEmpty)
+    | .text _ => false)
+
+/-- one-line rendering of a tree (for comparison and for the reply) -/
+def nodeStr (n : Option Node) : String := ((repr n).pretty 100000000).replace "\n" " "
+
+/-- lenient variant of C01's `<si>` fact parser: run-font tokens that are not numbers only say "has properties" -/
+def parseFontL (s : String) : Option Nat := if s = "~" then none else some (s.toNat?.getD 0)
+
+def parseSiXL (s : String) : Option SiX :=
+  match s.splitOn "/" with
+  | [t, rs] =>
+    let t : Option (Option TX) :=
+      if t = "~" then some none else
+      match t.splitOn ":" with
+      | [p, h] => (Umya.Driver.C01.parseTX p h).map some
+      | _ => none
+    let rs : Option (List RunX) :=
+      if rs = "~" then some [] else
+      (rs.splitOn "+").mapM (fun r =>
+        match r.splitOn ":" with
+        | [f, p, h] => (Umya.Driver.C01.parseTX p h).map (fun t => { font := parseFontL f, t := t })
+        | _ => none)
+    match t, rs with
+    | some t, some rs => some { t := t, runs := rs }
+    | _, _ => none
+  | _ => none
+
+def parseFacts (cells sst : String) : Option BookX :=
+  match Umya.Driver.C01.dropPrefix? "cells=" cells, Umya.Driver.C01.dropPrefix? "sst=" sst with
+  | some c, some s =>
+    let sheets := (c.splitOn "|").mapM (fun sh => (Umya.Driver.C01.splitList sh ";").mapM Umya.Driver.C01.parseCellX)
+    let sis := if s = "~" then some [] else (s.splitOn ";").mapM parseSiXL
+    match sheets, sis with
+    | some sheets, some sis => some { sheets := sheets, sst := sis }
+    | _, _ => none
+  | _, _ => none
+
+/-- one cell of the in-memory workbook: `col,row,kind,value,formula,styled,runs` (the format of C01's dump;
+    a run is `<1|~>:<text>`) -/
+def parseModelCell (s : String) : Option CellT :=
+  match s.splitOn "," with
+  | [col, row, kind, val, f, st, runs] =>
+    match col.toNat?, row.toNat?, decodeStr val, Umya.Driver.C01.parseOptText f with
+    | some col, some row, some v, some f =>
+      let raw : Option (RawValue (List Char)) :=
+        match kind with
+        | "z" => some .empty
+        | "s" => some (.str v)
+        | "r" => (Umya.Driver.C01.parseRuns runs).map .rich
+        | "n" => some (.num v)
+        | "b" => some (.bool (v = sTRUE))
+        | "e" => (ErrT.ofText? v).map .err
+        | "l" => some (.lazy [])
+        | _ => none
+      raw.map fun raw => { col := col, row := row, raw := raw, formula := f, styled := st = "1" }
+    | _, _, _, _ => none
+  | _ => none
+
+def parseModel (s : String) : Option (List (List CellT)) :=
+  (s.splitOn "|").mapM (fun sh => (Umya.Driver.C01.splitList sh ";").mapM parseModelCell)
+
+/-- the texts of an `<si>` fact (what the comparison of model and real shared-string facts looks at:
+    run properties are opaque on both sides) -/
+def siTexts (x : SiX) : Option TX × List TX := (x.t, x.runs.map (·.t))
+
+def cellKey (c : CellV) : String :=
+  s!"{str c.ref}/{c.kind}/{hexOf c.value}/{match c.formula with | some f => hexOf f | none => "~"}"
+
+structure BridgeOut where
+  diffs : List String := []
+  cells : Nat := 0
+  trees : Nat := 0
+  skipped : Nat := 0
+
+/-- (a): every parsed `<c>` of sheet `k` against `cellNode` of its fact -/
+def bridgeSheet (k : Nat) (xs : List CellX) (actual : List Node) (o : BridgeOut) : BridgeOut :=
+  if xs.length ≠ actual.length then
+    { o with diffs := o.diffs ++ [s!"sheet {k}: {xs.length} cell facts, {actual.length} <c> elements"] }
+  else
+    (xs.zip actual).foldl (fun o (cx, a) =>
+      if !inFragment a then { o with skipped := o.skipped + 1 }
+      else
+        let xf := ((a.attr? ['s']).bind natOf).getD 0
+        let rendered := cellNode xf cx
+        if nodeStr rendered = nodeStr (some a) then { o with cells := o.cells + 1, trees := o.trees + 1 }
+        else { o with cells := o.cells + 1,
+                      diffs := o.diffs ++ [s!"sheet {k} cell {String.ofList cx.ref}: rendered {nodeStr rendered} parsed {nodeStr (some a)}"] }) o
+
+def bridge (parts : Package) (facts : BookX) (model : Option (List (List CellT))) : String :=
+  let F := Umya.Num.textFmt []
+  -- (a) cells
+  let actualSheets : List (Option (List Node)) :=
+    (List.range facts.sheets.length).map fun k => ((parts.part? (sheetPartName k)).bind (·.xml)).map cellNodesOf
+  let o : BridgeOut := ((facts.sheets.zip actualSheets).zipIdx).foldl (fun o ((xs, act), k) =>
+    match act with
+    | some act => bridgeSheet k xs act o
+    | none => { o with diffs := o.diffs ++ [s!"sheet part {sheetPartName k} missing or malformed"] }) {}
+  -- (b) shared strings
+  let actualSst := sharedStrings parts sstPath
+  let renderedSst := (sstParts facts.sst).map (fun pkg => sharedStrings pkg sstPath)
+  let d2 := if renderedSst = some actualSst then [] else [s!"shared strings: rendered facts give {renderedSst.map (·.map hexOf)}, the part gives {actualSst.map hexOf}"]
+  -- (c), (d) the writer model on the in-memory cells
+  let d3 : List String := match model with
+    | none => []
+    | some sheets =>
+      match writeBook F false sheets with
+      | none => ["the writer model panics on the in-memory cells"]
+      | some b =>
+        (if b.sheets = facts.sheets then [] else
+          [s!"cell facts: the writer model gives {Umya.Driver.C01.bookXStr { b with sst := [] }}"]) ++
+        (if b.sst.map siTexts = facts.sst.map siTexts then [] else ["<si> facts: the writer model's texts differ from the part's"]) ++
+        (let views := (normalize F sheets).map (fun cs => (viewCells F (fun _ => 0) cs).map (fun p => cellKey p.1))
+         let decoded := actualSheets.map (fun act => (act.getD []).map (fun a => cellKey (decodeCell actualSst a).1))
+         if views = decoded then [] else [s!"decoded cells {decoded} are not the views of the model cells {views}"])
+  let diffs := o.diffs ++ d2 ++ d3
+  let info := s!"cells={o.cells} trees={o.trees} outside-fragment={o.skipped} si={facts.sst.length} model={if model.isSome then 1 else 0}"
+  if diffs.isEmpty then s!"ok ## {info}" else s!"differs {" | ".intercalate (diffs.take 3)} ## {info}"
+
+end Bridge
+
 def handle (st : St) (args : List String) : St × String :=
   match args with
   | "reset" :: _ => ({}, "ok")
@@ -57,6 +214,14 @@ def handle (st : St) (args : List String) : St × String :=
     let (bv, errs) := decode st.parts
     let v := match bv with | some b => viewStr b | none => "none"
     (st, s!"errs={errs.length};{" | ".intercalate (errs.take 5)};view={v}")
+  | ["bridge", cells, sst, model] =>
+    match parseFacts cells sst, Umya.Driver.C01.dropPrefix? "model=" model with
+    | some facts, some m =>
+      if m = "~" then (st, bridge st.parts facts none)
+      else match parseModel m with
+        | some sheets => (st, bridge st.parts facts (some sheets))
+        | none => (st, "bad-op")
+    | _, _ => (st, "bad-op")
   | _ => (st, "bad-op")
 
 end Umya.Driver.C02
